@@ -364,15 +364,23 @@ fn run_cfg(report: &mut Report, c: &Cfg, verbose: bool) {
 pub fn run(args: &Args, report: &mut Report) {
     report.rule = "real chains (Diag/LowRank x NUTS/MCLMC) with num_tune 20..1200 and random early_window, step_size_window, switch / early switch / \
         update frequencies and growth factors on iso / scaled / funnel targets, with seeded recoverable faults for divergent draws; the window \
-        bookkeeping is read after every draw (hook accessor) and dual averaging is replayed from the reported statistics; distinct = (preset, \
+        bookkeeping is read after every draw (hook accessor) and dual averaging / Adam are replayed from the reported statistics; distinct = (preset, \
         target, number of switches, saw stuck draws, saw divergences, saw the re-run search, long warmup)".into();
     report.assumptions.push("divergent draws far from the divergence start (|index| > 4) may be counted or not; +-1 draw slack on every window boundary".into());
     report.assumptions.push("before the final step-size window the replay accepts either acceptance statistic (the implementation switches to the symmetric one as soon as no further window fits)".into());
     if let Some(r) = &args.replay {
-        run_cfg(report, &cfg_from_json(r), true);
+        if r.get("kind").and_then(|k| k.as_str()) == Some("adam_chain") {
+            crate::c07::adam_chain_case(report, r["seed"].as_u64().unwrap(), r["idx"].as_u64().unwrap(), "C09");
+        } else {
+            run_cfg(report, &cfg_from_json(r), true);
+        }
         return;
     }
     let seed = args.seed ^ 0xC09;
     let n = report.size(1200, 40_000);
     crate::report::par_run(report, n, |i, rep| run_cfg(rep, &gen_cfg(seed, i), false));
+    // the same clause for the Adam method: the replay of C07's chain-level Adam monitor (asymmetric statistic before,
+    // symmetric one inside the final window)
+    let n_adam = report.size(160, 4000);
+    crate::report::par_run(report, n_adam, |i, rep| crate::c07::adam_chain_case(rep, seed, i, "C09"));
 }
